@@ -361,6 +361,41 @@ def run_standins(pid):
     return res, cex
 
 
+KANI_PROPS = {'C11': ['opcode_roundtrip_all_u16', 'errorcode_roundtrip_all_u16', 'ack_layout_and_roundtrip_all_u16']}
+
+
+def run_kani(pid):
+    """Complete (loop-free / fully unwound, full-domain) Kani harnesses that PROVE the contracts Verus only assumes for
+    the to_be_bytes-based conversions.  -> (evidence dict, list of failing harness names, raw output)"""
+    if pid not in KANI_PROPS or REPO != '/repo':
+        return None, [], ''
+    t0 = time.time()
+    kdir = os.path.join(VERIF, 'kani')
+    lock = os.path.join(kdir, 'Cargo.lock')
+    if not os.path.exists(lock) and os.path.exists(os.path.join(REPO, 'Cargo.lock')):
+        shutil.copy(os.path.join(REPO, 'Cargo.lock'), lock)
+    p = subprocess.run(['cargo', 'kani'], cwd=kdir, env=dict(os.environ, CARGO_NET_OFFLINE='true'), stdout=subprocess.PIPE, stderr=subprocess.STDOUT, text=True)
+    out = p.stdout
+    failing = []
+    cur = None
+    results = {}
+    for line in out.split('\n'):
+        m = re.match(r'Checking harness (\S+?)\.\.\.', line)
+        if m:
+            cur = m.group(1).split('::')[-1]
+        m = re.match(r'VERIFICATION:- (\w+)', line)
+        if m and cur:
+            results[cur] = m.group(1)
+            if m.group(1) != 'SUCCESSFUL':
+                failing.append(cur)
+    ev = {'backend': 'kani 0.68 / cbmc', 'harnesses': results, 'complete': True, 'wall_s': round(time.time() - t0, 1),
+          'note': 'full-domain symbolic inputs (all u16), loops fully unwound with unwinding assertions: complete proofs, not bounded'}
+    missing = [h for h in KANI_PROPS[pid] if h not in results]
+    if missing:
+        ev['error'] = 'harnesses did not run: %s | %s' % (missing, out[-300:])
+    return ev, failing, out
+
+
 def canary_pass(scratch, uni0):
     """Vacuity guard (thorough tier): weave a second copy with `assert(false)` at the start of every function
     under contract and of every loop that carries an invariant.  Each of these assertions MUST be reported as
@@ -687,6 +722,23 @@ def main():
                 print('VIOLATION property=%s replay=%s stand-in=%s (concrete failing input found)' % (pid, rpath, x['name']))
                 print('    ' + text.replace('\n', '\n    '))
                 prc = 1
+            kani_ev, kani_fail, kani_out = run_kani(pid) if not a.no_evidence else (None, [], '')
+            for h in kani_fail:
+                os.makedirs(os.path.join(VERIF, 'replays'), exist_ok=True)
+                rpath = os.path.join(VERIF, 'replays', '%s-kani-%s.json' % (pid, h))
+                k = kani_out.find('Checking harness proofs::%s' % h)
+                seg = kani_out[k:k + 6000] if k >= 0 else kani_out[-6000:]
+                failed_checks = [l.strip() for l in seg.split('\n') if 'FAILURE' in l or 'Failed Checks' in l][:10]
+                with open(rpath, 'w') as f:
+                    json.dump({'property': pid, 'failed_obligation': 'kani harness %s (complete over all u16)' % h, 'obligation_clause': 'see kani/src/lib.rs',
+                               'function': h, 'file': 'kani/src/lib.rs', 'verifier': 'kani 0.68 / cbmc', 'counterexample': failed_checks,
+                               'replay_cmd': 'cd /verif/kani && CARGO_NET_OFFLINE=true cargo kani --harness %s -Z concrete-playback --concrete-playback=print' % h,
+                               'verifier_output': [{'message': seg[:4000]}]}, f, indent=1)
+                print('VIOLATION property=%s replay=%s kani-harness=%s %s' % (pid, rpath, h, '; '.join(failed_checks)[:200]))
+                prc = 1
+            if kani_ev and kani_ev.get('error') and prc == 0:
+                print('INCONCLUSIVE: kani: %s' % kani_ev['error'][:300])
+                prc = 2
             for d in standins:
                 if d.get('error') and prc == 0:
                     print('INCONCLUSIVE: bounded stand-in %s: %s' % (d['name'], d['error']))
@@ -708,6 +760,7 @@ def main():
                     'known_findings_hit': sorted(known_hit),
                     'auto_included_helper_items': sorted('%s:%s' % k for k in auto_items),
                     'bounded_standins': standins,
+                    'kani_complete_harnesses': kani_ev,
                     'assumed_contract_clauses': [{'clause': k, 'function': v['fn'], 'text': v['text']} for k, v in sorted(uni.assumed.items()) if pid in v['props']],
                     'inconclusive': inconclusive[:10],
                     'verus_wall_s': round(vr['wall'], 2),
@@ -720,7 +773,7 @@ def main():
                     'partial correctness only for functions marked exec_allows_no_decreases_clause',
                 ],
                 'wall_s': round(time.time() - t0, 2),
-                'violations': len(new) + len(cexs),
+                'violations': len(new) + len(cexs) + len(kani_fail),
             }
             if not a.no_evidence:
                 os.makedirs(os.path.join(VERIF, 'evidence'), exist_ok=True)
